@@ -271,6 +271,13 @@ class Inliner:
             if len(olds) != 1 or every.get(new_name, 0) != len(lst2):
                 continue            # the new name is also the name of something else: references cannot be told apart
             old_name = next(iter(olds))
+            if every.get(old_name, 0) != 0:
+                continue            # namesakes keep the old name (an override renamed on its own?): calls through ``self`` may now
+                                    # reach a different function - not provably the same program, so nothing is undone
+            used = any((isinstance(x, ast.Attribute) and x.attr == new_name) or (isinstance(x, ast.Name) and x.id == new_name and isinstance(x.ctx, ast.Load))
+                       for tree in self.trees.values() for x in ast.walk(tree))
+            if not used:
+                continue            # nobody calls it by the new name: the old call sites lost their target
             for tree in self.trees.values():
                 for x in ast.walk(tree):
                     if isinstance(x, ast.Attribute) and x.attr == new_name:
@@ -363,6 +370,9 @@ class Inliner:
             return None
         call, name, is_meth = hit
         qn, fn, chain = self.helpers[name]
+        src_expr = s.iter if mode == "for" else s.value
+        if isinstance(fn, ast.AsyncFunctionDef) != isinstance(src_expr, ast.Await) and mode != "for":
+            return None          # a coroutine that is not awaited here (or a plain function that is): not the same as running its body
         body0 = _body(fn)
         if _as_expr(body0) is not None and mode != "for":
             return None          # an expression helper: substituted in place by _inline_exprs
@@ -415,7 +425,10 @@ class Inliner:
         if mode == "void":
             res = _tailify(body, lambda v: [] if v is None or isinstance(v, ast.Constant) else [ast.Expr(value=v)])
         elif mode == "return":
-            res = _tailify(body, lambda v: [ast.Return(value=v)])
+            # ``return self._h(..)``: the helper's returns are the caller's returns wherever they stand (inside loops, try blocks ...)
+            res = list(body)
+            if not (res and isinstance(res[-1], (ast.Return, ast.Raise))):
+                res.append(ast.Return(value=ast.Constant(value=None)))
         elif mode == "assign":
             def emit(v):
                 n2 = copy.deepcopy(s)
@@ -595,8 +608,27 @@ class Inliner:
                 for qn, node, chain in qualnames(tree, "x"):
                     pass
                 self._inline_exprs(tree)
-        # drop helpers that are no longer called anywhere (references as values keep them)
+        # drop helpers that are no longer called anywhere (references as values keep them); to a fixpoint: a helper that is only
+        # referenced from another helper's (dropped) definition goes too
+        dropped: Set[str] = set()
+        for _round in range(4):
+            before = len(dropped)
+            self._drop_round(report, dropped)
+            if len(dropped) == before:
+                break
         for name, (qn, fn, chain) in self.helpers.items():
+            if name in dropped:
+                continue
+            if self.inlined_sites.get(name):
+                report[qn] = f"inlined at {self.inlined_sites[name]} site(s); still referenced elsewhere, kept"
+            else:
+                report[qn] = "not inlined (unsupported shape); analysed as a function of its own"
+        return report
+
+    def _drop_round(self, report: Dict[str, str], dropped: Set[str]) -> None:
+        for name, (qn, fn, chain) in self.helpers.items():
+            if name in dropped:
+                continue
             refs = 0
             for tree in self.trees.values():
                 for x in ast.walk(tree):
@@ -614,15 +646,94 @@ class Inliner:
                             if not blk:
                                 blk.append(ast.Pass())
                 report[qn] = f"inlined at {self.inlined_sites[name]} site(s) and dropped"
-            elif self.inlined_sites.get(name):
-                report[qn] = f"inlined at {self.inlined_sites[name]} site(s); still referenced elsewhere, kept"
-            else:
-                report[qn] = "not inlined (unsupported shape); analysed as a function of its own"
+                dropped.add(name)
+
+
+def _fold_fstrings(tree: ast.AST) -> None:
+    """f"{a}{'::'}"  ->  f"{a}::"  (a constant that was substituted into an f-string becomes part of its text)."""
+    for n in ast.walk(tree):
+        if isinstance(n, ast.JoinedStr):
+            vals: List[ast.AST] = []
+            for v in n.values:
+                if isinstance(v, ast.FormattedValue) and isinstance(v.value, ast.Constant) and isinstance(v.value.value, str) and v.conversion == -1 and v.format_spec is None:
+                    v = ast.Constant(value=v.value.value)
+                if isinstance(v, ast.Constant) and isinstance(v.value, str) and vals and isinstance(vals[-1], ast.Constant) and isinstance(vals[-1].value, str):
+                    vals[-1] = ast.Constant(value=vals[-1].value + v.value)
+                else:
+                    vals.append(v)
+            n.values = vals
+
+
+def propagate_new_constants(trees: Dict[str, ast.Module]) -> Dict[str, str]:
+    """A module-level constant the reference tree does not have (``_TIMER_KEY_SEP = "::"`` introduced for a repeated literal) is
+    replaced by its value wherever the module reads it: the rules see the literal they saw before."""
+    if not os.path.exists(KNOWN_FILE):
+        return {}
+    with open(KNOWN_FILE) as fh:
+        known_names = json.load(fh).get("module_names")
+    if known_names is None:
+        return {}
+    report: Dict[str, str] = {}
+    new_consts: Dict[str, Dict[str, ast.Constant]] = {}
+    for mod, tree in trees.items():
+        have = set(known_names.get(mod, []))
+        counts: Dict[str, int] = {}
+        for x in ast.walk(tree):
+            if isinstance(x, ast.Name) and isinstance(x.ctx, (ast.Store, ast.Del)):
+                counts[x.id] = counts.get(x.id, 0) + 1
+        for st in tree.body:
+            tg, val = None, None
+            if isinstance(st, ast.Assign) and len(st.targets) == 1 and isinstance(st.targets[0], ast.Name):
+                tg, val = st.targets[0].id, st.value
+            elif isinstance(st, ast.AnnAssign) and isinstance(st.target, ast.Name) and st.value is not None:
+                tg, val = st.target.id, st.value
+            if tg is None or tg in have or counts.get(tg, 0) != 1:
+                continue
+            if isinstance(val, ast.Constant) and isinstance(val.value, (str, int, float, bool, type(None))):
+                new_consts.setdefault(mod, {})[tg] = val
+    if not new_consts:
         return report
+    for mod, tree in trees.items():
+        table = dict(new_consts.get(mod, {}))
+        # names imported from a module that defines a new constant
+        for st in tree.body:
+            if isinstance(st, ast.ImportFrom) and st.module:
+                src = st.module.split(".")[-1]
+                for al in st.names:
+                    for m2, t2 in new_consts.items():
+                        if m2.split(".")[-1] == src and al.name in t2 and (al.asname or al.name) not in table:
+                            table[al.asname or al.name] = t2[al.name]
+        if not table:
+            continue
+
+        class C(ast.NodeTransformer):
+            def visit_Name(self, n):
+                if isinstance(n.ctx, ast.Load) and n.id in table:
+                    return ast.copy_location(ast.Constant(value=table[n.id].value), n)
+                return n
+        shadow = set()      # a function that binds the same name locally keeps its own
+        for fn in ast.walk(tree):
+            if isinstance(fn, (ast.FunctionDef, ast.AsyncFunctionDef, ast.Lambda)):
+                a = fn.args
+                bound = {x.arg for x in a.posonlyargs + a.args + a.kwonlyargs} | ({a.vararg.arg} if a.vararg else set()) | ({a.kwarg.arg} if a.kwarg else set())
+                if not isinstance(fn, ast.Lambda):
+                    bound |= {x.id for x in ast.walk(fn) if isinstance(x, ast.Name) and isinstance(x.ctx, ast.Store)}
+                shadow |= bound & set(table)
+        for nm in shadow:
+            table.pop(nm, None)
+        if not table:
+            continue
+        C().visit(tree)
+        _fold_fstrings(tree)
+        for nm in table:
+            report[f"{mod}:{nm}"] = f"new module-level constant: read as its value {table[nm].value!r}"
+    return report
 
 
 def inline_new_helpers(trees: Dict[str, ast.Module]) -> Dict[str, str]:
     known = load_known()
     if known is None:
         return {}
-    return Inliner(trees, known).run()
+    report = propagate_new_constants(trees)
+    report.update(Inliner(trees, known).run())
+    return report
